@@ -226,12 +226,18 @@ NEW_COUNTERS = ("private_allocators", "private_runtimes", "private_allocs", "pri
                 "private_adds_compared", "private_compiled_calls", "private_bytes_verified", "reader_queries", "reader_query_hits",
                 "reader_statistics", "sentinel_rounds", "closes_seen", "closes_seen_concurrent", "maps_made", "unmaps_made",
                 "rt_near_call_adds", "rt_real_shrinks", "emit_validated", "emit_api_probes", "emit_with_host_features",
-                "emit_multi_section", "emit_const_pool", "empty_policy_checks")
+                "emit_multi_section", "emit_const_pool", "empty_policy_checks",
+                "doomed_allocs", "doomed_adds", "doomed_calls_refused", "doomed_served_from_mapped_memory",
+                "refused_block_mappings", "refused_block_mappings_with_2_other_threads_inside")
+# (doomed_served_from_mapped_memory may legitimately be 0)
+OPTIONAL_COUNTERS = ("doomed_served_from_mapped_memory",)
+
 # every single job must have observed these (a job in which a monitor saw nothing says nothing about that job's schedule)
 PER_JOB_REQUIRED = {
-    "tsan": ("private_allocators", "private_dual_allocs", "reader_queries", "closes_seen_concurrent", "emit_api_probes"),
+    "tsan": ("private_allocators", "private_dual_allocs", "reader_queries", "closes_seen_concurrent", "emit_api_probes",
+             "refused_block_mappings_with_2_other_threads_inside"),
     "asan": ("private_allocators", "private_dual_allocs", "reader_queries", "closes_seen_concurrent", "emit_api_probes", "maps_made", "unmaps_made",
-             "sentinel_rounds"),
+             "sentinel_rounds", "refused_block_mappings_with_2_other_threads_inside"),
 }
 
 def run_job(exe, job, logroot, idx):
@@ -259,7 +265,7 @@ def run_job(exe, job, logroot, idx):
 def run(tier, args):
     chk = common.Check("C11", tier)
     exe = {
-        "tsan": build.build_driver("drv_threads", "tsan", extra_ldflags=WRAP_CLOSE),
+        "tsan": build.build_driver("drv_threads", "tsan", extra_ldflags=WRAP_CLOSE + WRAP_MAPS[:1]),   # mmap only: fault injection
         "asan": build.build_driver("drv_threads", "asan", extra_cflags=["-DVERIF_COUNT_LOCKS", "-DVERIF_TRACK_MAPS"],
                                    extra_ldflags=WRAP_CLOSE + WRAP_MAPS),
     }
@@ -341,7 +347,13 @@ def run(tier, args):
             d = json.loads(res["out"].decode().strip().splitlines()[-1])
         except Exception:
             crashed = any(k.startswith("tsan:crash") for k in tsan_asmjit_keys)
-            if not crashed:
+            errtxt = res["err"].decode("utf-8", "replace")
+            if "Assertion `mutex->__data.__owner == 0' failed" in errtxt or "__pthread_mutex_unlock_usercnt" in errtxt or "__pthread_tpp_change_priority" in errtxt:
+                # glibc found a mutex locked by nobody / by somebody else: the harness only uses scoped std::mutex guards, the allocator's
+                # lock is the one mutex that AsmJit operates by hand
+                chk.violation("crash:glibc-mutex-owner-assertion", "[%s build] the driver died in a glibc mutex consistency assertion while threads used one "
+                              "allocator (a mutex was unlocked by a thread that did not hold it): %s" % (fl, errtxt[-300:].strip()), case)
+            elif not crashed:
                 inconclusive.append("driver %s %s rc=%s produced no summary: %s" % (fl, job["argv"], res["rc"], res["err"][-600:]))
             continue
         for v in d["violations"]:
@@ -441,6 +453,8 @@ def run(tier, args):
         "private objects: the thread that created them)",
         "process-wide resources: every close() issued by libasmjit.a is intercepted with the linker's --wrap and must name an open descriptor not owned by a "
         "harness thread (checked while threads run); asan flavour: mmap()/munmap() likewise - AsmJit may only unmap what it mapped, nothing stays mapped at the end",
+        "refused block mappings are injected: while a worker issues a request that needs a new block, every mmap() AsmJit makes from that thread "
+        "fails with ENOMEM (link-time --wrap in both flavours); 'contended' = at least two other threads were inside allocator calls at that moment",
         "the tsan flavour runs without the harness interval set (its mutex would order all worker operations) and with reader threads that take no harness lock",
         "reference programs with relocations are relocated to a fixed base; InstAPI answers (validate, query_rw_info, query_features, name lookups) are compared "
         "as one hash per (architecture, variant)",
@@ -461,7 +475,7 @@ def run(tier, args):
     if inconclusive:
         chk.note("%d job(s) ended without a usable summary (crash/hang after the reported violations)" % len(inconclusive))
     if not chk.violations and not args.replay:
-        missing = [k for k in NEW_COUNTERS + ("custom_pattern_fill_checks",) if not tot.get(k)]
+        missing = [k for k in NEW_COUNTERS + ("custom_pattern_fill_checks",) if not tot.get(k) and k not in OPTIONAL_COUNTERS]
         for k in ("vm_values_compared", "dual_allocs_in_racing_threads", "dual_mapping_works"):
             if not hostinit.get(k):
                 missing.append("hostinit." + k)
